@@ -52,4 +52,21 @@ def obligations(tier, seed):
         obs.append(Ob(id='C19.chrono.%s' % rep, prop='C19', group='C19.chrono', prelude='#include <chrono>', wrappers=[w], inputs=[],
                       body='\n  CHECK(%s() == 0, "ZERO-converts-to-a-zero-duration");\n' % w.name, fp=(rep == 'f64'),
                       contract='std::chrono::duration<%s, milli>(ZERO).count() == 0' % crep, functions_under_contract=('au::Zero::operator std::chrono::duration',)))
+    # ---- supporting static facts: ZERO converts to EVERY arithmetic type and every chrono duration, and is not accepted where a point is required
+    HDR = '#include <type_traits>\n#include <chrono>\n#include "au/au.hh"\n#include "au/units/meters.hh"\n#define VF_STATIC_FACT(c) static_assert(c, "VF_STATIC_FACT")\n'
+    ts = ['bool', 'char', 'signed char', 'unsigned char', 'wchar_t', 'char16_t', 'char32_t', 'short', 'unsigned short', 'int', 'unsigned', 'long', 'unsigned long',
+          'long long', 'unsigned long long', 'float', 'double', 'long double']
+    body = HDR + '\n'.join('VF_STATIC_FACT((std::is_convertible<au::Zero, %s>::value));' % t for t in ts) + '''
+VF_STATIC_FACT((std::is_convertible<au::Zero, std::chrono::nanoseconds>::value));
+VF_STATIC_FACT((std::is_convertible<au::Zero, std::chrono::duration<double, std::ratio<3, 7>>>::value));
+VF_STATIC_FACT((std::is_convertible<au::Zero, au::Quantity<au::Meters, float>>::value));
+VF_STATIC_FACT((!std::is_convertible<au::Zero, au::QuantityPoint<au::Meters, int>>::value));
+VF_STATIC_FACT((!std::is_constructible<au::QuantityPoint<au::Meters, double>, au::Zero>::value));
+constexpr bool vf_b = au::ZERO; VF_STATIC_FACT(vf_b == false);
+constexpr long double vf_ld = au::ZERO; VF_STATIC_FACT(vf_ld == 0.0L);
+int main() {}
+'''
+    obs.append(Ob(id='C19.static.zero-converts-to-every-arithmetic-type', prop='C19', group='C19.static', prelude='', wrappers=[], inputs=[], body=body, kind='S',
+                  contract='static facts: Zero is convertible to each of %d arithmetic types (bool and the character types included) and to chrono durations, with value 0; '
+                           'it is neither convertible to nor constructible into a QuantityPoint' % len(ts), functions_under_contract=('au::Zero::operator T (compile-time)',)))
     return obs
